@@ -362,27 +362,51 @@ func ruleOperatorAnchor(c *Ctx, short string, opOf map[*types.Func]string, rule,
 	}
 }
 
-// exprRoots returns the root objects (function parameters, package objects, closure
-// parameters) every identifier of e derives from through single definitions.
+// exprRoots returns the leaf objects (function parameters, package objects, closure
+// parameters) every identifier of e derives from, expanding single definitions fully.
 func exprRoots(info *types.Info, di *defIndex, e ast.Expr) map[types.Object]bool {
 	out := map[types.Object]bool{}
-	ast.Inspect(e, func(n ast.Node) bool {
-		switch x := n.(type) {
-		case *ast.SelectorExpr:
-			if r := di.rootOf(info, x, 0); r != nil {
-				out[r] = true
-			}
-			return false
-		case *ast.Ident:
-			if _, isType := info.Uses[x].(*types.TypeName); isType {
-				return true
-			}
-			if r := di.rootOf(info, x, 0); r != nil {
-				out[r] = true
-			}
+	seen := map[types.Object]bool{}
+	var walk func(e ast.Expr, depth int)
+	walk = func(e ast.Expr, depth int) {
+		if e == nil || depth > 10 {
+			return
 		}
-		return true
-	})
+		ast.Inspect(e, func(n ast.Node) bool {
+			switch x := n.(type) {
+			case *ast.FuncLit:
+				return false
+			case *ast.SelectorExpr:
+				if _, isPkg := info.Uses[identOf(x.X)].(*types.PkgName); isPkg {
+					return false
+				}
+				walk(x.X, depth)
+				return false
+			case *ast.Ident:
+				o := info.Uses[x]
+				if o == nil {
+					o = info.Defs[x]
+				}
+				if o == nil {
+					return true
+				}
+				if _, isVar := o.(*types.Var); !isVar {
+					return true
+				}
+				if seen[o] {
+					return true
+				}
+				seen[o] = true
+				if d := di.singleNonConst(o); d != nil {
+					walk(d, depth+1)
+				} else {
+					out[o] = true
+				}
+			}
+			return true
+		})
+	}
+	walk(e, 0)
 	return out
 }
 
